@@ -375,7 +375,9 @@ class Sim:
             r = 0
             if fn.startswith(self.prefixes):
                 r = 1
-                if self.opcode_files and fn.endswith(self.opcode_files):
+                # opcode events in generator frames crash CPython 3.12.1 (segfault while a
+                # @contextmanager generator is being resumed for __exit__): lines only there
+                if self.opcode_files and fn.endswith(self.opcode_files) and not (code.co_flags & 0x2A0):
                     r = 2
             self._code_traced[code] = r
         return r
